@@ -24,7 +24,7 @@
   MaxElapsedTime test see the clock.
 
   Model mode runs `Cosi.rstep` (every regenerated fact read, the event loop's error branch by
-  `genRules`); spec mode runs `Cosi.rstepCore` — the machine C13's theorems are about — and leaves
+  `genRRules`); spec mode runs `Cosi.rstepCore` — the machine C13's theorems are about — and leaves
   delivery contents and call counts open, but not WHETHER a receive yields an `Errored` (`e=`): the
   property's "…or terminates with an Errored event".
 -/
